@@ -15,6 +15,7 @@ FIXES = [
     ("ae76e27", ["C12"], ["C12-plateau-not-exact.replay", "C12-plateau-delta-min-dual.replay"]),
     ("4a17695", ["C12"], ["C12-prefix-of-prefix-panics.replay"]),
     ("849ad52", ["C14"], ["C14-from-trace-trailing-run.replay"]),
+    ("2edbfb5", ["C12"], ["C12-prefix-of-never-panics.replay", "C12-prefix-first-step-late-panics.replay"]),
 ]
 
 
